@@ -31,7 +31,10 @@ MANIFEST = {
             'secret bases and shared exponents, @, ~, if_else, == and inputs from non-zero senders are LAUNCHED without '
             'awaiting, every party yields to its event loop a different number of times, 10-30 unrelated secure '
             'multiplications are issued and awaited, under RandomOrder / Hold / ReverseLinks / Fifo schedules re-armed per '
-            'case; all parties must finish within a rounds budget (fresh simulator after a failure) and match the plain group.',
+            'case; all parties must finish within a rounds budget (fresh simulator after a failure) and match the plain group. '
+            'Receivers stream (m=3,t=1 and m=2,t=0; thorough m=5): scalar and list outputs of secure group elements of every '
+            'family (Sym, QR, Schnorr, EC, class group) to all / single / strict subsets of receivers: receivers get the plain '
+            'element, non-receivers None, nobody raises (loop exception handler, pending detection), further operations follow.',
     'note': 'Value/share-level model: group elements are abstract (operation/inversion/equality formulas on secure field '
             'coordinates are the plain fingroups formulas run on secure values — C27 for the formulas, C04 for the field '
             'protocols; not re-modelled here, covered by the simulator oracle). mpctools.reduce (tree) is modelled as a fold '
@@ -482,6 +485,100 @@ def concurrency_stream(ctx, counters):
     ctx.log('concurrency stream m=3: %d cases, %d bad' % (len(plan), nbad))
 
 
+def make_recv_prog(spec, rsets):
+    """Outputs of secure group elements to all / strict subsets / single receivers (scalar and list form), followed by
+    further secure operations so that a crashed or desynchronised party is noticed."""
+    async def prog(mpc, mods, pid):
+        fg = mods['mpyc.fingroups']
+        mods['mpyc.runtime'].pickle = PickleShim(mods)
+        m = len(mpc.parties)
+        if spec[0] == 'cl':
+            G = fg.ClassGroup(Delta=spec[1])
+            fs = reduced_forms(spec[1])
+            g, h = G(fs[-1]), G(fs[len(fs) // 2])
+        else:
+            G = mkgroup(fg, spec)
+            g, h, _c, _o = elements(G, spec)
+        secgrp = mpc.SecGrp(G)
+        ident = G.identity
+        a = mpc.input(secgrp(g if pid == 1 % m else ident), senders=1 % m)
+        b = mpc.input(secgrp(h if pid == m - 1 else ident), senders=m - 1)
+        out = []
+        for R in rsets:
+            mine = R is None or pid in R
+            got = await mpc.output(a, receivers=R)
+            okv = (got == g) if mine else (got is None)
+            out.append(('output scalar receivers=%s' % (R,), bool(okv), canon(got) if got is not None else None, canon(g) if mine else None))
+            got = await mpc.output([a, b], receivers=R)
+            if mine:
+                okv = isinstance(got, list) and len(got) == 2 and got[0] == g and got[1] == h
+                cg = [canon(v) for v in got] if isinstance(got, list) and all(v is not None for v in got) else repr(got)[:80]
+                out.append(('output list receivers=%s' % (R,), bool(okv), cg, [canon(g), canon(h)]))
+            else:
+                # non-receiver: only Nones (the COUNT of Nones for tuple-share groups is C07's finding F-C07-4)
+                okv = isinstance(got, list) and len(got) >= 2 and all(v is None for v in got)
+                out.append(('output list receivers=%s' % (R,), bool(okv), repr(got)[:80] if not okv else len(got), 2))
+            # further operations: everybody must still be in step
+            got = await mpc.output(~a if spec[0] in ('ec', 'cl') else a @ b)
+            want = ~g if spec[0] in ('ec', 'cl') else g @ h
+            out.append(('after receivers=%s: next op' % (R,), bool(got == want), canon(got), canon(want)))
+        got = await mpc.output(a @ b)
+        out.append(('final a@b', bool(got == g @ h), canon(got), canon(g @ h)))
+        return {'out': out}
+    return prog
+
+
+def receivers_stream(ctx):
+    from lib.sim import Fifo
+    nrec = 0
+    families = [('sym', 4), ('sym', 5), ('qr', 16), ('sg', 32, 16), ('ec', 'Ed25519', 'extended'),
+                ('ec', 'secp256k1', 'projective'), ('cl', -227)] + ctx.n([], [('sg', 64, 32), ('ec', 'Ed25519', 'affine'), ('cl', -1123)])
+    for (m, t) in [(3, 1), (2, 0)] + ctx.n([], [(5, 2)]):
+        if m == 3:
+            rsets = [None, [0], [1], [2], [0, 2], [1, 2]]
+        elif m == 2:
+            rsets = [[0], [1], None]
+        else:
+            rsets = [None, [4], [0, 3], [1, 2, 4]]
+        cfg = 'm=%d,t=%d,prss' % (m, t)
+        sim = None
+        try:
+            for spec in families:
+                if spec == ('sym', 5) and t > 0 and m >= 5:
+                    continue                                  # lifted sectype: F-C28-2
+                gname = '%s(%s)' % (spec[0], ','.join(map(str, spec[1:])))
+                rs = rsets if spec[0] not in ('ec', 'cl') or ctx.tier == 'thorough' else rsets[:4] if m == 3 else rsets
+                if sim is None:
+                    sim = Sim(m=m, t=t, seed=ctx.seed + 17 * m, log_messages=False, track_tasks=False)
+                    errs = []
+                    sim.loop.set_exception_handler(lambda loop, c, errs=errs: errs.append(repr(c.get('exception') or c.get('message'))[:200]))
+                    sim.start(Fifo())
+                del errs[:]
+                res = sim.run(make_recv_prog(spec, rs), idle_limit=3000 if t > 0 else 50000, max_rounds=ctx.n(1500000, 6000000))
+                loop_errs = [e for e in errs if 'CancelledError' not in e]
+                if not all(isinstance(r, dict) for r in res) or loop_errs:
+                    ctx.case({'cfg': cfg, 'group': gname, 'receivers': 'failed'}, kind='receivers m=%d' % m)
+                    ctx.violation('output-receivers party-crashed-or-pending %s %s' % (gname, cfg),
+                                  {'cfg': cfg, 'group': gname, 'receiver_sets': rs, 'results': [repr(r)[:200] for r in res],
+                                   'loop_errors': loop_errs[:3]})
+                    sim.close()
+                    sim = None
+                    continue
+                for pid, r in enumerate(res):
+                    for (lbl, okv, got, want) in r['out']:
+                        nrec += 1
+                        if pid == 0:
+                            ctx.case({'cfg': cfg, 'group': gname, 'op': lbl}, kind='receivers m=%d' % m)
+                        if not okv:
+                            ctx.violation('output-receivers wrong %s op=%s party=%d %s' % (gname, lbl, pid, cfg),
+                                          {'cfg': cfg, 'group': gname, 'op': lbl, 'party': pid, 'got': got, 'want': want})
+        finally:
+            if sim is not None:
+                sim.close()
+    ctx.extra['receiver_subset_outputs_checked'] = nrec
+    ctx.log('receivers stream: %d per-party outputs checked' % nrec)
+
+
 def lagrange_at_zero(P, m):
     lams = []
     for i in range(1, m + 1):
@@ -705,6 +802,7 @@ def _run(ctx):
     ctx.extra['classgroup_outputs_checked'] = ncl
     counters = {'conc': 0}
     concurrency_stream(ctx, counters)
+    receivers_stream(ctx)
     ctx.extra['implementation_outputs_checked'] = nout
     ctx.extra['aliasing_cases'] = nalias
     for nt in sorted(alias_notes):
